@@ -22,29 +22,7 @@ verus! {
 //@end
 
 // ---- the PMTiles v3 rules (spec section "Directories"), independent of this code's writer
-pub open spec fn sorted(s: Seq<EntryV3>) -> bool { forall|i: int, j: int| 0 <= i <= j < s.len() ==> s[i].tile_id <= s[j].tile_id }
-// an entry with run_length = 0 is a leaf-directory pointer and matches every id from its own on
-pub open spec fn covers(e: EntryV3, id: u64) -> bool { e.tile_id <= id && (e.run_length == 0 || id - e.tile_id < e.run_length) }
-// the candidate entry for an id is the LAST entry whose tile id is <= id
-pub open spec fn is_last_le(s: Seq<EntryV3>, i: int, id: u64) -> bool {
-	0 <= i < s.len() && s[i].tile_id <= id && forall|j: int| i < j < s.len() ==> s[j].tile_id > id }
-
-// column layout: n, then n id deltas, n run lengths, n lengths, n offsets (0 = contiguous with the previous entry, else offset + 1)
-pub open spec fn col_ids(s: Seq<EntryV3>, k: int) -> Seq<u8> decreases k {
-	if k <= 0 { Seq::empty() } else { col_ids(s, k - 1) + enc((s[k - 1].tile_id - (if k >= 2 { s[k - 2].tile_id } else { 0 })) as nat) } }
-pub open spec fn col_runs(s: Seq<EntryV3>, k: int) -> Seq<u8> decreases k {
-	if k <= 0 { Seq::empty() } else { col_runs(s, k - 1) + enc(s[k - 1].run_length as nat) } }
-pub open spec fn col_lens(s: Seq<EntryV3>, k: int) -> Seq<u8> decreases k {
-	if k <= 0 { Seq::empty() } else { col_lens(s, k - 1) + enc(s[k - 1].range.length as nat) } }
-pub open spec fn off_code(s: Seq<EntryV3>, i: int) -> nat {
-	if i > 0 && s[i].range.offset == s[i - 1].range.offset + s[i - 1].range.length { 0 } else { (s[i].range.offset + 1) as nat } }
-pub open spec fn col_offs(s: Seq<EntryV3>, k: int) -> Seq<u8> decreases k {
-	if k <= 0 { Seq::empty() } else { col_offs(s, k - 1) + enc(off_code(s, k - 1)) } }
-pub open spec fn directory_bytes(s: Seq<EntryV3>) -> Seq<u8> {
-	let n = s.len() as int; enc(n as nat) + col_ids(s, n) + col_runs(s, n) + col_lens(s, n) + col_offs(s, n) }
-pub open spec fn ranges_ok(s: Seq<EntryV3>) -> bool {
-	forall|i: int| 0 <= i < s.len() ==> (#[trigger] s[i]).range.offset + s[i].range.length <= u64::MAX && s[i].range.offset < u64::MAX }
-
+//@include common/pmtiles_dir_spec.vrs
 impl EntriesV3 {
 //@extract fn file="versatiles_container/src/container/pmtiles/types/entries_v3.rs" scope="impl EntriesV3" name="find_tile"
 //@ret r
